@@ -294,15 +294,23 @@ fn run_rulefile_case(t: &mut Tape, ctx: &mut CaseCtx) -> Verdict {
     for d in dirs {
         files.push((format!("{}d.bin", d), content(d)));
     }
-    let rules = "#subruledef operand\n{\n    #{v} => v\n    [{v}] => v\n}\n#ruledef\n{\n    ld {o: operand} => 0xaa @ o\n    raw {v} => 0xbb @ v\n    self => 0xcc @ incbin(\"d.bin\")\n    selfsub {o: operand} => 0xdd @ incbin(\"d.bin\") @ o\n}\n#fn fdata() => incbin(\"d.bin\")\n#fn fwrap(x) => 0xee @ x @ incbin(\"./d.bin\")\n";
+    let rules = "#subruledef operand\n{\n    #{v} => v\n    [{v}] => v\n}\n#ruledef\n{\n    ld {o: operand} => 0xaa @ o\n    raw {v} => 0xbb @ v\n    self => 0xcc @ incbin(\"d.bin\")\n    selfsub {o: operand} => 0xdd @ incbin(\"d.bin\") @ o\n    viaasm {v} => asm { raw {v} }\n}\n#fn fdata() => incbin(\"d.bin\")\n#fn fwrap(x) => 0xee @ x @ incbin(\"./d.bin\")\n";
     files.push((format!("{}rules.asm", rule_dir), rules.as_bytes().to_vec()));
     let mut body = String::new();
     let mut expect: Vec<u8> = Vec::new();
     let here = content(use_dir);
     let there = content(rule_dir);
     let n = t.urange(1, 5);
+    let mut via_asm = false;
     for _ in 0..n {
-        match t.draw(10) {
+        match if crate::engine::gen_version() >= 3 { t.draw(11) } else { t.draw(10) } {
+            10 => {
+                // v3: the argument text is written HERE and substituted into an asm block of the rules file
+                body.push_str("viaasm incbin(\"d.bin\")\n");
+                expect.push(0xbb);
+                expect.extend(&here);
+                via_asm = true;
+            }
             7 => {
                 // a function defined in the rules file names the file next to ITS text
                 body.push_str("#d fdata()\n");
@@ -379,6 +387,9 @@ fn run_rulefile_case(t: &mut Tape, ctx: &mut CaseCtx) -> Verdict {
     let want_bits: Vec<bool> = expect.iter().flat_map(|b| (0..8).rev().map(move |k| (b >> k) & 1 == 1)).collect();
     let res = match &o {
         sut::AsmOutcome::Ok(ok) if ok.bits == want_bits => None,
+        // input predicate of a listed finding: an inclusion function written in an argument that is substituted
+        // textually into an asm block of a rule defined in another directory
+        sut::AsmOutcome::Ok(ok) if via_asm && rule_dir != use_dir => Some(("inclusion-function-in-macro-argument|wrong-file-included".to_string(), format!("expected {} , assembler {}", sut::bits_hex(&want_bits), sut::bits_hex(&ok.bits)))),
         sut::AsmOutcome::Ok(ok) => Some(("rulefile|wrong-file-included".to_string(), format!("expected {} , assembler {}", sut::bits_hex(&want_bits), sut::bits_hex(&ok.bits)))),
         sut::AsmOutcome::Panic(p) => Some((format!("rulefile|panic {}", sut::panic_site(p)), p.clone())),
         other => Some(("rulefile|valid-tree-rejected".to_string(), other.brief())),
